@@ -163,6 +163,29 @@ def handleConvS (strict : Bool) (op : String) (args impl : List String) : Verdic
     compare s!"exit-ok={ok} wrote={ok}" (" ".intercalate impl) fun _ => false
   | _, _ => .bad s!"unknown op {op}"
 
+/-- `ops.seq <op,op,…> <spare> <items>`: a history of operations on one cue list (any operation may occur several
+    times: nothing is remembered between calls); the answer is the models composed. `force:<d>:<0|1>` is
+    ForceDuration. -/
+def handleSeq (args impl : List String) : Verdict :=
+  match args with
+  | opsTok :: _spare :: rest =>
+    match decItems rest with
+    | some (xs, []) =>
+      let step (acc : Option (List Item)) (op : String) : Option (List Item) :=
+        match acc with
+        | none => none
+        | some ys =>
+          match op.splitOn ":" with
+          | ["force", d, b] => match d.toInt?, b.toNat? with
+            | some d, some b => some (Ops.forceDuration d (b != 0) ys)
+            | _, _ => none
+          | _ => (applyOp ys [] op).map (·.1)
+      match (opsTok.splitOn ",").foldl step (some xs) with
+      | some m => compare (encItems m) (" ".intercalate impl) fun _ => false
+      | none => .bad "ops.seq: ops"
+    | _ => .bad "ops.seq: items"
+  | _ => .bad "ops.seq"
+
 def handleConv (op : String) (args impl : List String) : Verdict :=
   if op = "conv.kf" then handleConvS true "conv.pair" args impl else handleConvS false op args impl
 
